@@ -472,8 +472,19 @@ pub struct Scope<P: Problem> {
 
 impl<P: Problem> Scope<P> {
     /// Creates a new `Scope` with the `body`.
+    ///
+    /// The objective function evaluations counted inside the scope are added to the
+    /// evaluation counter of the enclosing state when the scope is left.
     pub fn new(body: Vec<Box<dyn Component<P>>>) -> Box<dyn Component<P>> {
-        Self::new_with(|_| Ok(()), body, |_, _| Ok(()))
+        Self::new_with(|_| Ok(()), body, |state, inner| {
+            // Objective function evaluations made inside the scope are evaluations of the run.
+            if let Ok(evaluations) = inner.try_get_value::<common::Evaluations>() {
+                if let Ok(mut outer) = state.try_borrow_value_mut::<common::Evaluations>() {
+                    *outer += evaluations;
+                }
+            }
+            Ok(())
+        })
     }
 
     /// Creates a new `Scope` with the `body`, and methods for initializing the [`State`] beforehand
